@@ -8,7 +8,7 @@ PROP_MODULES = ['Jwt.Props.C14']
 PROP_FILES = ['Jwt/Props/C14.lean']
 GENERATED_FACT_THEOREMS = 0
 CHECKER_CMD = "cd lean && lake build Jwt.Props.C14 && lake env lean <generated #print axioms file>"
-LEVEL_TEXT = ('Lean theorems: verify returns non-zero iff the flag is set afterwards, flag => message, success => clean, from every prior state; setkey refusal flags with message. Tied to the code by every failure cause x prior error state (reuse sequences) and by the C14 contract checked on every verify operation of the matrix.')
+LEVEL_TEXT = ('Lean theorems: verify returns non-zero iff the flag is set afterwards, flag => message, success => clean, from every prior state; setkey refusal flags with message; generate returns NULL iff the flag is set with a message. Tied to the code by every failure cause x prior error state (reuse sequences) and by the C14 contract checked on every verify operation of the matrix.')
 ASSUMPTIONS = F.COMMON_ASSUME + []
 TRUSTED_BASE = F.COMMON_TRUSTED
 replay = F.replay
@@ -20,4 +20,7 @@ def run(ctx, model_ok, deep=False):
          "every failure cause of the token alphabet crossed with prior states reached by all short histories (fresh, flag set, set then cleared); contract rc!=0 <=> flag, flag => message, success => clean", False),
         ("alg-matrix-sample", 200 if not (ctx.tier == "thorough" or deep) else None, S.falsify_accept,
          "policy rejections, signature failures, callback-selected keys: contract checked on every verify", False),
+        ("builder-errors", S.builder_reuse_suite, S.falsify_builder_reuse,
+         "generate failing in the callback, on a weak key, on an inadmissible callback choice, from every prior error state: NULL <=> flag, flag => message, token => clean", False),
+        ("setget-codes", S.setget_suite, S.falsify_setget, "return code of every header/claim set/get/del equals the code stored in the value (executor prints both) and the typed-map answer", False),
     ])
